@@ -55,7 +55,15 @@ func rulePart(g *gen.Grammar, site int) []string {
 	return []string{"rule " + r.Name}
 }
 
-var prefixRe = regexp.MustCompile(`^f\.txt:(\d+):(\d+) \((\d+)\): (rule .*)$`)
+// prefixRegexp matches "file:line:col (offset): rule name"; with an empty file
+// name the prefix starts at the line number.
+func prefixRegexp(filename string) *regexp.Regexp {
+	f := ""
+	if filename != "" {
+		f = regexp.QuoteMeta(filename) + ":"
+	}
+	return regexp.MustCompile(`^` + f + `(\d+):(\d+) \((\d+)\): (rule .*)$`)
+}
 
 func isPanicKind(k string) bool { return strings.HasPrefix(k, "panic") }
 
@@ -65,8 +73,9 @@ type PosOracle func(seq int) (off int, ok bool)
 
 // checkC11 judges one faulted run against its fault-free twin. faults is the
 // injected set; R0 the fault-free run with the same options.
-func checkC11(p *Parser, R0, r *CallResult, faults []kernel.Fault, recoverOn bool, pos PosOracle, lineCol map[int][2]int, kept map[int]bool) (string, string, map[string]any) {
+func checkC11(p *Parser, R0, r *CallResult, faults []kernel.Fault, recoverOn bool, pos PosOracle, lineCol map[int][2]int, kept map[int]bool, filename string) (string, string, map[string]any) {
 	g := p.Grammar()
+	prefixRe := prefixRegexp(filename)
 	if r.Aborted || r.Overflow {
 		return "", "", nil
 	}
@@ -131,6 +140,10 @@ func checkC11(p *Parser, R0, r *CallResult, faults []kernel.Fault, recoverOn boo
 			wantEsc = "s" + fmt.Sprintf("%q", pv.Msg)
 		case "panic-int":
 			wantEsc = pv.Msg
+		case "panic-stringer":
+			wantEsc = "<kernel.GoodStringer>"
+		case "panic-badstringer":
+			wantEsc = "<*kernel.BadStringer>"
 		default:
 			wantEsc = "<kernel.PanicStruct>"
 		}
@@ -285,7 +298,7 @@ func checkC11(p *Parser, R0, r *CallResult, faults []kernel.Fault, recoverOn boo
 	return "", "", nil
 }
 
-var faultKinds = []string{"err", "panic-err", "panic-str", "panic-int", "panic-struct", "errdup"}
+var faultKinds = []string{"err", "panic-err", "panic-str", "panic-int", "panic-struct", "panic-stringer", "panic-badstringer", "errnested", "errdup"}
 
 // campaignC11 records the fault-free execution and then injects faults at the
 // code-block invocations of that execution.
@@ -337,8 +350,8 @@ func campaignC11(p *Parser, req *Request, resp *Response) {
 		evs := R0.Events
 		if len(evs) <= singleMax {
 			for i := range evs {
-				for k, kind := range faultKinds[:5] {
-					// every event gets err and panic-err; the other panic payloads rotate
+				for k, kind := range faultKinds[:8] {
+					// every event gets err and panic-err; the other payloads rotate
 					if k >= 2 && (i+k)%3 != 0 {
 						continue
 					}
@@ -349,7 +362,7 @@ func campaignC11(p *Parser, req *Request, resp *Response) {
 		} else {
 			for j := 0; j < 2*singleMax; j++ {
 				e := evs[simrt.Choose(len(evs))]
-				sets = append(sets, []kernel.Fault{{Site: e.Site, N: e.N, Kind: faultKinds[simrt.Choose(5)]}})
+				sets = append(sets, []kernel.Fault{{Site: e.Site, N: e.N, Kind: faultKinds[simrt.Choose(8)]}})
 			}
 		}
 		// every site that ran more than once at one offset gets one set that makes
@@ -393,8 +406,10 @@ func campaignC11(p *Parser, req *Request, resp *Response) {
 					switch c := simrt.Choose(10); {
 					case c < 4:
 						kind = "errdup"
+					case c == 8:
+						kind = "errnested"
 					case c == 9:
-						kind = faultKinds[1+simrt.Choose(4)]
+						kind = faultKinds[1+simrt.Choose(6)]
 					}
 					set = append(set, kernel.Fault{Site: e.Site, N: e.N, Kind: kind})
 				}
@@ -428,7 +443,7 @@ func campaignC11(p *Parser, req *Request, resp *Response) {
 				resp.stat("errors_dropped_with_abandoned_growth_attempt", len(r.Injected)-len(mm.errLog))
 			}
 		}
-		class, msg, detail := checkC11(p, R0, r, set, recoverOn, pos, lineCol, kept)
+		class, msg, detail := checkC11(p, R0, r, set, recoverOn, pos, lineCol, kept, call.Opts.FileName())
 		if class != "" {
 			resp.Violations = append(resp.Violations, Violation{Class: class, Msg: msg, Detail: detail, FaultSets: [][]kernel.Fault{set},
 				Attrs: map[string]string{"class": class, "recover": fmt.Sprint(recoverOn), "memoize": fmt.Sprint(call.Opts.Memoize), "optimized": fmt.Sprint(!p.Has["Memoize"])}})
